@@ -47,6 +47,8 @@ pub struct RunResult {
     pub steps: u64,
     /// did the property's own rare condition occur in this run
     pub nontrivial: bool,
+    /// number of executions this run stands for (fault sweeps execute many per scenario)
+    pub evals: u64,
     /// a textual event log (only filled when requested: replay / determinism selftest)
     pub log: Vec<String>,
 }
